@@ -182,7 +182,7 @@ func c10(c *Ctx) {
 	}
 	tsClient, tsServer := "", ""
 	for _, p := range []string{"ts-client", "ts-server"} {
-		res := c.TB.Run(p, req, plugin.RunOpt{})
+		res := lab.RunDecoy(c.TB, p, req, plugin.RunOpt{})
 		c.R.Eval(1)
 		if res.OK() {
 			for name, content := range res.Files {
